@@ -125,15 +125,16 @@ static std::vector<Entry> table()
 	// ---------------------------------------------------------------- quadrature (C03, C12, C13)
 	// (order, interval): the same order on several intervals, several orders on the same interval, intervals of equal length elsewhere
 	static const double GI[][3] = {{1, -1, 1}, {2, -1, 1}, {3, -1, 1}, {4, -1, 1}, {7, -1, 1}, {8, -1, 1}, {30, -1, 1}, {31, -1, 1}, {6, 0, 1}, {6, 2, 3}, {6, 0, 2}, {30, 0, 1}, {30, 2, 3},
-								   {40, 0, 1}, {5, 0, 1}, {64, -3, 5}, {65, -3, 5}, {6, 1e-20, 3e-20}, {6, 1e6, 3e6}};
-	add("Compute_Gauss_Legendre_Roots_and_Weights", "C12 C13 @gl", 19, [](int k) {
+								   {40, 0, 1}, {5, 0, 1}, {64, -3, 5}, {65, -3, 5}, {6, 1e-20, 3e-20}, {6, 1e6, 3e6},
+								   {6, -1, 0}, {6, -1, 2}, {30, -1, 0}, {30, -1, 1}, {30, 0, 0}};	// (limits equal to 0: the value a "last argument" static starts with)
+	add("Compute_Gauss_Legendre_Roots_and_Weights", "C12 C13 @gl", 23, [](int k) {
 		V o;
 		for(auto& r : Compute_Gauss_Legendre_Roots_and_Weights((unsigned)GI[k][0], GI[k][1], GI[k][2]))
 			for(double x : r)
 				o.push_back(x);
 		return o;
 	});
-	add("Integrate_Gauss_Legendre(n)", "C12 C13 @gl", 19, [](int k) { return V{Integrate_Gauss_Legendre([](double x) { return 1.0 / (1.0 + x * x); }, GI[k][1], GI[k][2], (unsigned)GI[k][0])}; });
+	add("Integrate_Gauss_Legendre(n)", "C12 C13 @gl", 24, [](int k) { return V{Integrate_Gauss_Legendre([](double x) { return 1.0 / (1.0 + x * x); }, GI[k][1], GI[k][2], (unsigned)GI[k][0])}; });
 	static const char* ME[] = {"Trapezoidal", "Gauss-Legendre", "Gauss-Kronrod", "Tanh-Sinh", "Gauss-Legendre_2", "Adaptive-Simpson"};
 	static const int MP[] = {0, 5, 6, 31, 40, 3};
 	add("Integrate(method)", "C13 C12", 36, [](int k) {
@@ -142,8 +143,8 @@ static std::vector<Entry> table()
 			p = 6;
 		return V{Integrate([](double x) { return std::exp(-0.5 * x) * std::cos(x); }, -0.5 + 0.1 * (k % 5), 2.0 + 0.3 * (k % 3), std::string(ME[m]), p)};
 	});
-	add("Integrate(GL2, intervals)", "C13 C12 @gl", 8, [](int k) {
-		static const double IV[][3] = {{0, 1, 0}, {2, 3, 0}, {0, 1, 6}, {2, 3, 6}, {0, 2, 6}, {5, 6, 0}, {-1, 0, 40}, {0, 1, 40}};
+	add("Integrate(GL2, intervals)", "C13 C12 @gl", 12, [](int k) {
+		static const double IV[][3] = {{0, 1, 0}, {2, 3, 0}, {0, 1, 6}, {2, 3, 6}, {0, 2, 6}, {5, 6, 0}, {-1, 0, 40}, {0, 1, 40}, {-1, 2, 0}, {-1, 0, 0}, {-1, 2, 6}, {-1, 0, 6}};
 		return V{Integrate([](double x) { return 1.0 / (1.0 + x * x); }, IV[k][0], IV[k][1], "Gauss-Legendre_2", (int)IV[k][2]),
 				 Integrate([](double x) { return 1e-30 / (1.0 + x * x); }, IV[k][0], IV[k][1], "Adaptive-Simpson", 0)};
 	});
